@@ -50,6 +50,9 @@ type c20Op struct {
 	// the signing time of the preceding signing attempt (if that was for the
 	// same request) but carries another attribute value, agent and expiry
 	Retry bool
+	// SlowCancel: the remote signer takes 50 ms (fake) and the request's context
+	// ends after 10 ms, in the middle of it; afterwards the history waits 100 ms
+	SlowCancel bool
 }
 
 type c20Scenario struct {
@@ -84,13 +87,14 @@ func genC20(t *Tape) *c20Scenario {
 		op.Req = t.Choose(2)
 		op.Remote = t.Bool(40)
 		op.WithTSA = t.Bool(20)
-		op.EarlyHow = t.Choose(8)
+		op.EarlyHow = t.Choose(10)
 		op.Reenter = t.Bool(15)
 		op.CtxDone = t.Bool(10)
 		op.SignerHow = 1 + t.Choose(3)
 		op.LateHow = t.Choose(2)
 		op.TSAHow = t.Choose(4)
 		op.Retry = t.Bool(25)
+		op.SlowCancel = t.Bool(12)
 		if op.Kind == EOSignFailSigner {
 			op.Remote = true
 		}
@@ -766,6 +770,17 @@ func (sc *c20Scenario) exec(obs *c20Obs, st *Stats) {
 						sr.Payload.Content = nil
 						how = "empty_payload"
 					}
+				case 8, 9:
+					// an extended attribute named like a header of the specification
+					// that this request does not use
+					if sc.Format == 0 {
+						sr.ExtendedSignedAttributes = append(sr.ExtendedSignedAttributes, signature.Attribute{Key: "io.cncf.notary.authenticSigningTime", Critical: op.EarlyHow == 8, Value: "2000-01-01T00:00:00Z"})
+						how = "attribute_named_like_authentic_signing_time_header"
+					} else {
+						sr.Expiry = time.Time{}
+						sr.ExtendedSignedAttributes = append(sr.ExtendedSignedAttributes, signature.Attribute{Key: "io.cncf.notary.expiry", Critical: op.EarlyHow == 8, Value: int64(946684800)})
+						how = "attribute_named_like_expiry_header"
+					}
 				case 5:
 					if sc.Format == 0 {
 						sr.Payload.Content = []byte(`["not","an","object"]`)
@@ -830,6 +845,7 @@ func (sc *c20Scenario) exec(obs *c20Obs, st *Stats) {
 			var b []byte
 			var serr error
 			panicked := false
+			slowCancel := false
 			nestedOK, nestedWant, nestedName = false, "", ""
 			nestedBytes = nil
 			func() {
@@ -843,9 +859,22 @@ func (sc *c20Scenario) exec(obs *c20Obs, st *Stats) {
 					cctx, ccancel := context.WithCancel(context.Background())
 					ccancel()
 					sr = sr.WithContext(cctx)
+				} else if op.SlowCancel && ss != nil && sr.Signer == signature.Signer(ss) {
+					ss.Latency = 50 * time.Millisecond
+					cctx, ccancel := context.WithCancel(context.Background())
+					defer ccancel()
+					time.AfterFunc(10*time.Millisecond+cancelOffset, ccancel)
+					sr = sr.WithContext(cctx)
+					slowCancel = true
 				}
 				b, serr = env.Sign(sr)
 			}()
+			if slowCancel {
+				// whatever the signing left running has time to finish
+				time.Sleep(100 * time.Millisecond)
+				how += "+context_cancelled_while_the_signer_was_busy"
+				st.Probes["c20_context_cancelled_while_signer_busy"]++
+			}
 			prevSR, prevReq = sr, op.Req
 			if op.Kind == EOSignFailLate && op.Reenter {
 				how += "+reentrant_sign_" + nestedName
